@@ -32,10 +32,10 @@ structure UnbShape (st h0 : HubSt) : Prop where
   prev : h0.prevHubBalance = st.prevHubBalance
   legacy : h0.legacy = st.legacy
 
-inductive HubStepKind (h h' : HubSt) (e : HubEnv) (sender : Addr) (ms : List Msg) : Prop
-  | quiet (q : Quiet h h')
-  | withdraw (hp : h.isPaused = false) (hx : h.withdraw e sender = .ok (h', ms))
-  | unbond (st h0 : HubSt) (hst : h.actualState e = .ok st) (sh : UnbShape st h0)
+inductive HubStepKind (h h' : HubSt) (e : HubEnv) (sender : Addr) (m : HubMsg) (ms : List Msg) : Prop
+  | quiet (q : Quiet h h') (hne : m ≠ .withdrawUnbonded)
+  | withdraw (hm : m = .withdrawUnbonded) (hp : h.isPaused = false) (hx : h.withdraw e sender = .ok (h', ms))
+  | unbond (st h0 : HubSt) (hne : m ≠ .withdrawUnbonded) (hst : h.actualState e = .ok st) (sh : UnbShape st h0)
       (inv0 : ClaimInv h → ClaimInv h0)
       (hcase : (e.now - st.lastUnbondedTime > st.epoch ∧ ∃ um last,
                   h0.processUndelegations e = .ok (h', um) ∧ ms = um ++ [last] ∧ undelegatedBy [last] = 0) ∨
@@ -51,20 +51,20 @@ theorem quiet_of_books {h st x : HubSt} {e : HubEnv} (hst : h.actualState e = .o
 /-- **Classification of accepted hub messages.** -/
 theorem hubExec_classify (h h' : HubSt) (e : HubEnv) (sender : Addr) (funds : List (Denom × Nat))
     (m : HubMsg) (ms : List Msg) (hl : h.legacy = [])
-    (hx : hubExec h e sender funds m = .ok (h', ms)) : HubStepKind h h' e sender ms := by
+    (hx : hubExec h e sender funds m = .ok (h', ms)) : HubStepKind h h' e sender m ms := by
   cases m with
   | withdrawUnbonded =>
     simp only [hubExec] at hx
     split at hx
     · cases hx
     · rename_i hp
-      exact .withdraw (by simpa using hp) hx
+      exact .withdraw rfl (by simpa using hp) hx
   | migrateWaitList limit =>
     simp only [hubExec] at hx
     split at hx
     · injection hx with hx; injection hx with h1 _; subst h1
       have : h.migrate limit = h := by simp [migrate, hl]
-      rw [this]; exact .quiet (Quiet.refl h)
+      rw [this]; exact .quiet (Quiet.refl h) (by intro hc; cases hc)
     · cases hx
   | updateParams a b c d p r =>
     simp only [hubExec] at hx
@@ -73,7 +73,7 @@ theorem hubExec_classify (h h' : HubSt) (e : HubEnv) (sender : Addr) (funds : Li
     · cases hx
     · rename_i h1 hp
       injection hx with hx; injection hx with e1 _; subst e1
-      refine .quiet ⟨updateParams_keeps _ _ _ _ _ _ _ _ _ hp, ?_, ?_, ?_⟩ <;>
+      refine .quiet ⟨updateParams_keeps _ _ _ _ _ _ _ _ _ hp, ?_, ?_, ?_⟩ (by intro hc; cases hc) <;>
         (unfold updateParams at hp; exc_norm at hp; exc_split at hp; all_goals rfl)
   | receive user amt hook =>
     simp only [hubExec] at hx
@@ -90,17 +90,17 @@ theorem hubExec_classify (h h' : HubSt) (e : HubEnv) (sender : Addr) (funds : Li
             simp only [] at hx
             split at hx
             · obtain ⟨st, _, _, _, _, _, hst, _, _, _, _, _, _, _, _, hh, _⟩ := convertBS_spec _ _ _ _ _ _ hx
-              exact .quiet (quiet_of_books hst (convertBS_keeps _ _ _ _ _ _ hx) (by rw [hh]) (by rw [hh]) (by rw [hh]))
+              exact .quiet (quiet_of_books hst (convertBS_keeps _ _ _ _ _ _ hx) (by rw [hh]) (by rw [hh]) (by rw [hh])) (by intro hc; cases hc)
             · split at hx
               · obtain ⟨st, _, _, _, _, _, hst, _, _, _, _, _, _, _, _, hh, _⟩ := convertSB_spec _ _ _ _ _ _ hx
-                exact .quiet (quiet_of_books hst (convertSB_keeps _ _ _ _ _ _ hx) (by rw [hh]) (by rw [hh]) (by rw [hh]))
+                exact .quiet (quiet_of_books hst (convertSB_keeps _ _ _ _ _ _ hx) (by rw [hh]) (by rw [hh]) (by rw [hh])) (by intro hc; cases hc)
               · cases hx
           | unbond =>
             simp only [] at hx
             split at hx
             · obtain ⟨st, supply, wf, tok, hst, _, _, _, _, _, hcase⟩ := unbondB_spec _ _ _ _ _ _ hx
               have k := actualState_keeps h st e hst
-              refine .unbond st (st.afterUnbondB user supply amt wf) hst ⟨rfl, rfl, rfl, rfl, rfl, rfl⟩
+              refine .unbond st (st.afterUnbondB user supply amt wf) (by intro hc; cases hc) hst ⟨rfl, rfl, rfl, rfl, rfl, rfl⟩
                 (fun inv => (C07_unbond_bsei_credits_sender_only st (ClaimInv.of_same k.same inv) user supply amt wf).1) ?_
               rcases hcase with ⟨hg, um, hp, hms⟩ | ⟨_, hh, hms⟩
               · exact Or.inl ⟨hg, um, _, hp, hms, by simp [undelegatedBy, tokMsg]⟩
@@ -108,7 +108,7 @@ theorem hubExec_classify (h h' : HubSt) (e : HubEnv) (sender : Addr) (funds : Li
             · split at hx
               · obtain ⟨st, tok, hst, _, _, hcase⟩ := unbondS_spec _ _ _ _ _ _ hx
                 have k := actualState_keeps h st e hst
-                refine .unbond st (st.afterUnbondS user amt) hst ⟨rfl, rfl, rfl, rfl, rfl, rfl⟩
+                refine .unbond st (st.afterUnbondS user amt) (by intro hc; cases hc) hst ⟨rfl, rfl, rfl, rfl, rfl, rfl⟩
                   (fun inv => (C07_unbond_stsei_credits_sender_only st (ClaimInv.of_same k.same inv) user amt).1) ?_
                 rcases hcase with ⟨hg, um, hp, hms⟩ | ⟨_, hh, hms⟩
                 · exact Or.inl ⟨hg, um, _, hp, hms, by simp [undelegatedBy, tokMsg]⟩
@@ -117,18 +117,18 @@ theorem hubExec_classify (h h' : HubSt) (e : HubEnv) (sender : Addr) (funds : Li
   | bond =>
     simp only [hubExec] at hx; split at hx; · cases hx
     · obtain ⟨p, st, mint, dl, tok, _, hst, _, _, _, _, hh, _⟩ := bondB_spec _ _ _ _ _ _ hx
-      exact .quiet (quiet_of_books hst (bondB_keeps _ _ _ _ _ _ hx) (by rw [hh]) (by rw [hh]) (by rw [hh]))
+      exact .quiet (quiet_of_books hst (bondB_keeps _ _ _ _ _ _ hx) (by rw [hh]) (by rw [hh]) (by rw [hh])) (by intro hc; cases hc)
   | bondForStSei =>
     simp only [hubExec] at hx; split at hx; · cases hx
     · obtain ⟨p, st, dl, tok, _, hst, _, _, _, hh, _⟩ := bondS_spec _ _ _ _ _ _ hx
-      exact .quiet (quiet_of_books hst (bondS_keeps _ _ _ _ _ _ hx) (by rw [hh]) (by rw [hh]) (by rw [hh]))
+      exact .quiet (quiet_of_books hst (bondS_keeps _ _ _ _ _ _ hx) (by rw [hh]) (by rw [hh]) (by rw [hh])) (by intro hc; cases hc)
   | bondRewards =>
     simp only [hubExec] at hx; split at hx; · cases hx
     · obtain ⟨p, st, _, _, hst, _, hh⟩ := bondR_spec _ _ _ _ _ _ hx
-      exact .quiet (quiet_of_books hst (bondR_keeps _ _ _ _ _ _ hx) (by rw [hh]) (by rw [hh]) (by rw [hh]))
+      exact .quiet (quiet_of_books hst (bondR_keeps _ _ _ _ _ _ hx) (by rw [hh]) (by rw [hh]) (by rw [hh])) (by intro hc; cases hc)
   | updateGlobalIndex =>
     simp only [hubExec] at hx; split at hx; · cases hx
-    · refine .quiet ⟨updateGlobal_keeps _ _ _ _ _ hx, ?_, ?_, ?_⟩ <;>
+    · refine .quiet ⟨updateGlobal_keeps _ _ _ _ _ hx, ?_, ?_, ?_⟩ (by intro hc; cases hc) <;>
         (unfold updateGlobal at hx; exc_norm at hx; exc_split at hx; all_goals rfl)
   | checkSlashing =>
     simp only [hubExec] at hx
@@ -139,26 +139,26 @@ theorem hubExec_classify (h h' : HubSt) (e : HubEnv) (sender : Addr) (funds : Li
       · cases hx
       · rename_i st hst
         injection hx with hx; injection hx with e1 _; subst e1
-        exact .quiet (quiet_of_books hst (actualState_keeps _ _ _ hst) rfl rfl rfl)
+        exact .quiet (quiet_of_books hst (actualState_keeps _ _ _ hst) rfl rfl rfl) (by intro hc; cases hc)
   | updateConfig a b c d f g u =>
     simp only [hubExec] at hx; split at hx; · cases hx
-    · refine .quiet ⟨updateConfig_keeps _ _ _ _ _ _ _ _ _ _ _ _ hx, ?_, ?_, ?_⟩ <;>
+    · refine .quiet ⟨updateConfig_keeps _ _ _ _ _ _ _ _ _ _ _ _ hx, ?_, ?_, ?_⟩ (by intro hc; cases hc) <;>
         (unfold updateConfig at hx; exc_norm at hx; exc_split at hx; all_goals rfl)
   | setOwner a =>
     simp only [hubExec] at hx; exc_norm at hx; exc_split at hx
-    exact .quiet ⟨⟨⟨rfl, rfl, rfl, rfl, rfl, rfl, rfl⟩, rfl⟩, rfl, rfl, rfl⟩
+    exact .quiet ⟨⟨⟨rfl, rfl, rfl, rfl, rfl, rfl, rfl⟩, rfl⟩, rfl, rfl, rfl⟩ (by intro hc; cases hc)
   | acceptOwnership =>
     simp only [hubExec] at hx; exc_norm at hx; exc_split at hx
-    exact .quiet ⟨⟨⟨rfl, rfl, rfl, rfl, rfl, rfl, rfl⟩, rfl⟩, rfl, rfl, rfl⟩
+    exact .quiet ⟨⟨⟨rfl, rfl, rfl, rfl, rfl, rfl, rfl⟩, rfl⟩, rfl, rfl, rfl⟩ (by intro hc; cases hc)
   | swapHook =>
     simp only [hubExec] at hx; exc_norm at hx; exc_split at hx
-    exact .quiet (Quiet.refl h)
+    exact .quiet (Quiet.refl h) (by intro hc; cases hc)
   | claimAirdrop =>
     simp only [hubExec] at hx; exc_norm at hx; exc_split at hx
-    exact .quiet (Quiet.refl h)
+    exact .quiet (Quiet.refl h) (by intro hc; cases hc)
   | redelegateProxy src plan =>
     simp only [hubExec] at hx; exc_norm at hx; exc_split at hx
-    exact .quiet (Quiet.refl h)
+    exact .quiet (Quiet.refl h) (by intro hc; cases hc)
 
 /-! ### the shape of the batch history -/
 
@@ -465,14 +465,14 @@ theorem HistInv.hub_step (h h' : HubSt) (e : HubEnv) (sender : Addr) (funds : Li
     (m : HubMsg) (ms : List Msg) (inv : HistInv h) (hl : h.legacy = [])
     (hx : hubExec h e sender funds m = .ok (h', ms)) : HistInv h' := by
   cases hubExec_classify h h' e sender funds m ms hl hx with
-  | quiet q => exact inv.of_same q.keeps.same.hist q.keeps.same.batchId q.lastProc q.lastUnb
-  | withdraw hp hw =>
+  | quiet q _ => exact inv.of_same q.keeps.same.hist q.keeps.same.batchId q.lastProc q.lastUnb
+  | withdraw _ hp hw =>
     obtain ⟨_, h1, hpw, _, _, hh, _⟩ := withdraw_spec h h' e sender ms hw
     have r := (release_complete h h1 _ _ inv hpw).1
     subst hh
     have d := delWait_fold_shape (h1.finished sender).2 sender h1
     exact r.of_same d.1 d.2.1 d.2.2.1 d.2.2.2
-  | unbond st h0 hst sh _ hcase =>
+  | unbond st h0 _ hst sh _ hcase =>
     have sb := (actualState_spec h st e hst).1
     have inv0 : HistInv h0 := inv.of_same (sh.hist.trans sb.hist) (sh.batchId.trans sb.batchId)
       (sh.lastProc.trans sb.lastProc) (sh.lastUnb.trans sb.lastUnb)
